@@ -15,6 +15,7 @@
 #include <sstream>
 #include <string>
 #include <thread>
+#include <type_traits>
 #include <vector>
 
 #include "rkcommon/memory/IntrusivePtr.h"
@@ -152,8 +153,10 @@ static bool apply(World &w, const std::string &tok)
     if (o >= (int)w.ob.size()) return false;
     if (hB) {
       Base *p = o < 0 ? nullptr : w.ob[o];
-      if (k == "rc") { new (w.hb[h].mem) IntrusivePtr<Base>(p); w.hb[h].live = true; }
-      else w.hb[h].h() = p;
+      // the empty case is written with the literal nullptr (constructor from / assignment of nullptr)
+      if (k == "rc") { if (p) new (w.hb[h].mem) IntrusivePtr<Base>(p); else new (w.hb[h].mem) IntrusivePtr<Base>(nullptr); w.hb[h].live = true; }
+      else if (p) w.hb[h].h() = p;
+      else w.hb[h].h() = nullptr;
     } else {
       if (o >= 0 && !w.od[o]) usage_abort(tok + " (Base object into a Derived handle)");
       Derived *p = o < 0 ? nullptr : w.od[o];
@@ -261,16 +264,25 @@ static std::string observe(World &w)
     if (h) os << ',';
     if (!w.live(h)) { os << '.'; continue; }
     const void *p = w.isB(h) ? (const void *)w.hb[h].h().ptr : (const void *)w.hd[h - w.NB].h().ptr;
-    if (!p) { os << '0'; continue; }
+    if (!p) {
+      os << '0';
+      // operator bool of an empty handle is false (both handle types)
+      bool t = w.isB(h) ? bool(w.hb[h].h()) : bool(w.hd[h - w.NB].h());
+      if (t) os << '!';
+      continue;
+    }
     int found = -1;
     for (size_t o = 0; o < w.ob.size(); o++) {
       const void *q = w.isB(h) ? (const void *)w.ob[o] : (const void *)w.od[o];
       if (q && q == p) found = (int)o;
     }
     if (found < 0) os << '?'; else os << (found + 1);
-    // operator bool / operator-> / operator* agree with ptr
+    // operator bool / operator-> / operator* agree with ptr (both handle types, through a const handle)
     if (w.isB(h)) {
-      auto &x = w.hb[h].h();
+      const IntrusivePtr<Base> &x = w.hb[h].h();
+      if (!bool(x) || x.operator->() != x.ptr || &*x != x.ptr) os << '!';
+    } else {
+      const IntrusivePtr<Derived> &x = w.hd[h - w.NB].h();
       if (!bool(x) || x.operator->() != x.ptr || &*x != x.ptr) os << '!';
     }
   }
@@ -427,8 +439,104 @@ static int run_threads(int T, long OPS, unsigned long long seed, int ROUNDS)
   return 0;
 }
 
+
+// ------------------------------------------------------------------ traits: what the headers declare beyond the handle operations
+// Copying / moving a RefCountedObject: on the current tree all four are deleted.  If a tree makes
+// them available, the copy is a NEW object (count 1: nobody refers to it but its creator) and the
+// source's count is unchanged; an assignment changes neither counter.
+struct Plain : public RefCountedObject
+{
+  int v{0};
+};
+template <typename X, bool = std::is_copy_constructible<X>::value>
+struct CopyCtorProbe { static std::string run() { return "deleted"; } };
+template <typename X>
+struct CopyCtorProbe<X, true>
+{
+  static std::string run()
+  {
+    X *a = new X; IntrusivePtr<X> hnd(a);
+    X *c = new X(*a);
+    std::ostringstream os; os << "src=" << a->useCount() << ",new=" << c->useCount();
+    c->refDec(); hnd = nullptr; a->refDec();
+    return os.str();
+  }
+};
+template <typename X, bool = std::is_move_constructible<X>::value>
+struct MoveCtorProbe { static std::string run() { return "deleted"; } };
+template <typename X>
+struct MoveCtorProbe<X, true>
+{
+  static std::string run()
+  {
+    X *a = new X; IntrusivePtr<X> hnd(a);
+    X *c = new X(std::move(*a));
+    std::ostringstream os; os << "src=" << a->useCount() << ",new=" << c->useCount();
+    c->refDec(); hnd = nullptr; a->refDec();
+    return os.str();
+  }
+};
+template <typename X, bool = std::is_copy_assignable<X>::value>
+struct CopyAssignProbe { static std::string run() { return "deleted"; } };
+template <typename X>
+struct CopyAssignProbe<X, true>
+{
+  static std::string run()
+  {
+    X *a = new X; IntrusivePtr<X> hnd(a); X *c = new X;
+    *c = *a;
+    std::ostringstream os; os << "src=" << a->useCount() << ",dst=" << c->useCount();
+    c->refDec(); hnd = nullptr; a->refDec();
+    return os.str();
+  }
+};
+template <typename X, bool = std::is_move_assignable<X>::value>
+struct MoveAssignProbe { static std::string run() { return "deleted"; } };
+template <typename X>
+struct MoveAssignProbe<X, true>
+{
+  static std::string run()
+  {
+    X *a = new X; IntrusivePtr<X> hnd(a); X *c = new X;
+    *c = std::move(*a);
+    std::ostringstream os; os << "src=" << a->useCount() << ",dst=" << c->useCount();
+    c->refDec(); hnd = nullptr; a->refDec();
+    return os.str();
+  }
+};
+
+static int run_traits()
+{
+  std::cout << "copy_ctor=" << CopyCtorProbe<Plain>::run() << " copy_assign=" << CopyAssignProbe<Plain>::run()
+            << " move_ctor=" << MoveCtorProbe<Plain>::run() << " move_assign=" << MoveAssignProbe<Plain>::run();
+  std::cout << " virtual_dtor=" << std::has_virtual_destructor<RefCountedObject>::value;
+  std::cout << " ref_alias=" << std::is_same<rkcommon::memory::Ref<Plain>, IntrusivePtr<Plain>>::value
+            << " refcount_alias=" << std::is_same<rkcommon::memory::RefCount, RefCountedObject>::value;
+  Plain *o = new Plain;                                    // RefCountedObject(): born with the creator's reference
+  {
+    std::cout << " fresh_count=" << o->useCount();
+    rkcommon::memory::Ref<Plain> viaAlias(o);              // the alias is the same template
+    IntrusivePtr<Plain> n(nullptr);                        // constructor from the literal nullptr
+    std::cout << " nullptr_ctor=" << (n.ptr == nullptr && !n ? "null" : "BAD") << "," << o->useCount();
+    IntrusivePtr<Plain> q(o);
+    q = nullptr;                                           // assignment of the literal nullptr releases
+    std::cout << " nullptr_assign=" << (q.ptr == nullptr && !q ? "null" : "BAD") << "," << o->useCount();
+    const IntrusivePtr<Plain> c(o);                        // accessors through a const handle
+    c->v = 5; (*c).v += 1;
+    std::cout << " const_access=" << o->v;
+    viaAlias = nullptr;
+    std::cout << " after=" << o->useCount();
+    std::cout.flush();
+  }
+  std::cout << " end=" << o->useCount() << "\n";         // c released at scope end: only the creator's reference is left
+  o->refDec();
+  return 0;
+}
+
 int main(int argc, char **argv)
 {
+  if (argc >= 2 && !std::strcmp(argv[1], "traits"))
+    return run_traits();
   if (argc >= 4 && !std::strcmp(argv[1], "seq"))
     return run_seq(std::atoi(argv[2]), std::atoi(argv[3]));
   if (argc >= 6 && !std::strcmp(argv[1], "threads"))
